@@ -202,6 +202,54 @@ _READS = [
     _mk_read('get_slice_set_empty', lambda t, o: t.body[0].body[1].value.get_slice(0, 0, **o).src, True),
 ]
 
+# -- public entry points that set options INTERNALLY: reconcile() pins its own defaults while it works ----------------
+
+def _mk_reconcile(name, src, damage):
+    """mark(), damage the AST outside pfst, reconcile(): `damage` may make the reconcile fail midway (after its
+    up-front checks, while its private option block is active)"""
+    def edit(F, o, st, chk):
+        import ast as A
+        f = F(src, 'exec').mark()
+        damage(f, A)
+        try:
+            r = f.reconcile().src
+        except Exception as e:
+            r = _exc(e)
+        chk.api('reconcile')
+        return r
+    edit.__name__ = '_e_' + name
+    edit.takes_options = False
+    return edit
+
+
+def _dmg_value(f, A):
+    f.a.body[0].value = A.Constant(value=7)
+
+
+def _dmg_target(f, A):
+    f.a.body[0].targets[0] = A.Constant(value=5)
+
+
+def _dmg_dict(f, A):
+    f.a.body[0].value.keys.append(A.Name(id='c', ctx=A.Load()))
+
+
+def _dmg_del(f, A):
+    f.a.body[0].targets[0] = A.BinOp(left=A.Name(id='x', ctx=A.Load()), op=A.Add(), right=A.Constant(value=1))
+
+
+def _dmg_body(f, A):
+    f.a.body[0].body = []
+
+
+_RECONCILE = [
+    _mk_reconcile('reconcile_ok', 'a = 1  # one\nb = 2\n', _dmg_value),
+    _mk_reconcile('reconcile_fail_target', 'a = 1\nb = 2\n', _dmg_target),
+    _mk_reconcile('reconcile_fail_dict', 'd = {a: 1, b: 2}\n', _dmg_dict),
+    _mk_reconcile('reconcile_fail_del', 'del a, b\n', _dmg_del),
+    _mk_reconcile('reconcile_fail_body', 'if a:\n    b\nc\n', _dmg_body),
+]
+
 # -- operations that empty their target: behaviour decided by the effective norm_self / norm_get / set_norm ---------
 
 def _e_del_empty(F, o, st, chk):
@@ -337,9 +385,10 @@ def _e_persist(F, o, st, chk):
 
 EDITS = [_e_copy_par, _e_replace_binop, _e_replace_par, _e_walrus, _e_arglike, _e_cut_stmt, _e_set_del, _e_set_get,
          _e_pep8, _e_elif, _e_docstr, _e_del_empty, _e_body_empty, _e_matchor_empty, _e_matchor_one,
-         *CMP_EDITS, *_UNPAR, *_READS, _e_persist]
+         *CMP_EDITS, *_UNPAR, *_READS, *_RECONCILE, _e_persist]
 READ_IDS = [EDITS.index(e) for e in _READS]
-NO_OPTS_IDS = [EDITS.index(e) for e in _READS if not e.takes_options]    # accessors without **options: always called bare
+RECONCILE_IDS = [EDITS.index(e) for e in _RECONCILE]
+NO_OPTS_IDS = [EDITS.index(e) for e in _READS + _RECONCILE if not e.takes_options]    # accessors without **options: always called bare
 OPT_IDS = [i for i in range(len(EDITS) - 1) if i not in NO_OPTS_IDS]       # fresh-tree edits that take **options
 NORM_IDS = [EDITS.index(e) for e in NORM_EDITS]
 PARS_IDS = [EDITS.index(e) for e in PARS_EDITS]
